@@ -626,21 +626,101 @@ func (ex *Exec) chanObj(st *State, ch ChanVal) *ChanObj { return st.objGet(ch.Ob
 // a one-slot hand-off: a send on an unbuffered channel succeeds only if a receiver is blocked on it — modelled
 // by treating cap 0 as a one-slot buffer whose sender then blocks until the slot is taken ("synchronous enough"
 // for the level-S harnesses, stated in DESIGN.md).
-func (ex *Exec) canSend(c *ChanObj) bool {
-	cp := c.Cap
-	if cp == 0 {
-		cp = 1
-	}
-	return c.Closed || len(c.Buf) < cp
+// Unbuffered channels are rendezvous points: a send completes only together with a receive. A coroutine that
+// attempted a channel operation and blocked is "parked" at that instruction; the other side, when it arrives,
+// completes both instructions atomically (value handed over, partner's instruction finished, partner runnable).
+type chanPartner struct {
+	co  *Coro
+	fr  *Frame
+	in  ssa.Instruction
+	idx int // select case
 }
 
-func (ex *Exec) canRecv(c *ChanObj) bool { return len(c.Buf) > 0 || c.Closed }
+func (ex *Exec) chanPartners(st *State, obj ObjID, receivers bool) []chanPartner {
+	var out []chanPartner
+	self := st.co()
+	for _, c := range st.coros {
+		if c == self || !c.parked || c.status == CoDone || len(c.frames) == 0 || c.inPanic {
+			continue
+		}
+		fr := c.frames[len(c.frames)-1]
+		if fr.ip >= len(fr.block.Instrs) {
+			continue
+		}
+		switch x := fr.block.Instrs[fr.ip].(type) {
+		case *ssa.Send:
+			if !receivers {
+				if ch, ok := ex.get(fr, x.Chan).(ChanVal); ok && ch.Obj == obj {
+					out = append(out, chanPartner{c, fr, x, -1})
+				}
+			}
+		case *ssa.UnOp:
+			if receivers && x.Op == token.ARROW {
+				if ch, ok := ex.get(fr, x.X).(ChanVal); ok && ch.Obj == obj {
+					out = append(out, chanPartner{c, fr, x, -1})
+				}
+			}
+		case *ssa.Select:
+			for i, s := range x.States {
+				if (s.Dir == types.RecvOnly) != receivers {
+					continue
+				}
+				if ch, ok := ex.get(fr, s.Chan).(ChanVal); ok && ch.Obj == obj {
+					out = append(out, chanPartner{c, fr, x, i})
+					break
+				}
+			}
+		}
+	}
+	return out
+}
+
+func (ex *Exec) canSend(st *State, ch ChanVal) bool {
+	c := ex.chanObj(st, ch)
+	if c.Closed {
+		return true
+	}
+	if c.Cap == 0 {
+		return len(ex.chanPartners(st, ch.Obj, true)) > 0
+	}
+	return len(c.Buf) < c.Cap
+}
+
+func (ex *Exec) canRecv(st *State, ch ChanVal) bool {
+	c := ex.chanObj(st, ch)
+	if len(c.Buf) > 0 || c.Closed {
+		return true
+	}
+	return c.Cap == 0 && len(ex.chanPartners(st, ch.Obj, false)) > 0
+}
 
 func (ex *Exec) doSend(st *State, ch ChanVal, v Value) bool {
 	c := ex.chanObj(st, ch)
 	if c.Closed {
 		ex.runtimePanic(st, "send on closed channel")
 		return false
+	}
+	if c.Cap == 0 {
+		ps := ex.chanPartners(st, ch.Obj, true)
+		p := ps[0]
+		if len(ps) > 1 {
+			p = ps[ex.chooseN(st, len(ps))]
+		}
+		// complete the receiver's instruction
+		switch x := p.in.(type) {
+		case *ssa.UnOp:
+			if x.CommaOk {
+				ex.set(p.fr, x, TupleVal{v, B(true)})
+			} else {
+				ex.set(p.fr, x, v)
+			}
+		case *ssa.Select:
+			ex.setSelectResult(st, p.fr, x, p.idx, v, true)
+		}
+		p.fr.ip++
+		p.co.parked = false
+		p.co.status = CoRunnable
+		return true
 	}
 	n := *c
 	n.Buf = append(append([]Value(nil), c.Buf...), v)
@@ -657,6 +737,25 @@ func (ex *Exec) doRecv(st *State, ch ChanVal, zero Value) (Value, bool) {
 		st.objSet(ch.Obj, &n)
 		return v, true
 	}
+	if !c.Closed && c.Cap == 0 {
+		ps := ex.chanPartners(st, ch.Obj, false)
+		p := ps[0]
+		if len(ps) > 1 {
+			p = ps[ex.chooseN(st, len(ps))]
+		}
+		var v Value
+		switch x := p.in.(type) {
+		case *ssa.Send:
+			v = ex.get(p.fr, x.X)
+		case *ssa.Select:
+			v = ex.get(p.fr, x.States[p.idx].Send)
+			ex.setSelectResult(st, p.fr, x, p.idx, nil, false)
+		}
+		p.fr.ip++
+		p.co.parked = false
+		p.co.status = CoRunnable
+		return v, true
+	}
 	return zero, false // closed
 }
 
@@ -667,9 +766,10 @@ func (ex *Exec) execSend(st *State, co *Coro, fr *Frame, x *ssa.Send) {
 		co.blockOn = "send on nil channel"
 		return
 	}
-	if !ex.canSend(ex.chanObj(st, ch)) {
+	if !ex.canSend(st, ch) {
 		co.status = CoBlocked
 		co.blockOn = "chan send"
+		co.parked = true
 		return
 	}
 	if ex.doSend(st, ch, ex.get(fr, x.X)) {
@@ -683,9 +783,10 @@ func (ex *Exec) execRecv(st *State, co *Coro, fr *Frame, x *ssa.UnOp, ch ChanVal
 		co.blockOn = "recv on nil channel"
 		return
 	}
-	if !ex.canRecv(ex.chanObj(st, ch)) {
+	if !ex.canRecv(st, ch) {
 		co.status = CoBlocked
 		co.blockOn = "chan recv"
+		co.parked = true
 		return
 	}
 	elemT := x.X.Type().Underlying().(*types.Chan).Elem()
@@ -705,12 +806,11 @@ func (ex *Exec) execSelect(st *State, co *Coro, fr *Frame, x *ssa.Select) {
 		if ch.Obj == 0 {
 			continue
 		}
-		c := ex.chanObj(st, ch)
 		if s.Dir == types.SendOnly {
-			if ex.canSend(c) {
+			if ex.canSend(st, ch) {
 				ready = append(ready, i)
 			}
-		} else if ex.canRecv(c) {
+		} else if ex.canRecv(st, ch) {
 			ready = append(ready, i)
 		}
 	}
@@ -718,6 +818,7 @@ func (ex *Exec) execSelect(st *State, co *Coro, fr *Frame, x *ssa.Select) {
 		if x.Blocking {
 			co.status = CoBlocked
 			co.blockOn = "select"
+			co.parked = true
 			return
 		}
 		ex.setSelectResult(st, fr, x, -1, nil, false)
